@@ -500,4 +500,9 @@ def run(ctx):
     from rules import c17 as _c17s
     _c17s.rule_args(ctx, R="C20/reader-args")
     _c17s.rule_prefix_only(ctx, R="C20/reader-prefix-only")
+    # shared infrastructure this property leans on (rules/families.py): each member is the same rule instance as in its home property
+    from rules import families as _fam
+    _fam.reader(ctx, "C20")
+    _fam.mapping_list(ctx, "C20")
+    _fam.thread_list(ctx, "C20")
 
